@@ -94,9 +94,89 @@ func typeSubjectSet(fn *ssa.Function, p *ssa.Parameter) map[ssa.Value]bool {
 }
 
 type inferModel struct {
-	fn   *ssa.Function
-	subj map[ssa.Value]bool
-	kf   *kindFlow
+	fn        *ssa.Function
+	typeParam *ssa.Parameter // the reflect.Type being translated
+	subj      map[ssa.Value]bool
+	kf        *kindFlow
+	c         *Ctx
+}
+
+// The inputs of the recursion are recognised by type, wherever they are passed: as parameters of the inference
+// function, or as fields of a parameter/receiver struct that bundles them (an "inference context").
+func (m *inferModel) isTableType(t types.Type) bool {
+	mt, ok := t.Underlying().(*types.Map)
+	return ok && isNamed(mt.Key(), "reflect", "Type") && m.c.isPkgNamed(mt.Elem(), "Schema") && isPointer(mt.Elem())
+}
+
+func (m *inferModel) isSeenType(t types.Type) bool {
+	mt, ok := t.Underlying().(*types.Map)
+	return ok && isNamed(mt.Key(), "reflect", "Type") && tBool(mt.Elem())
+}
+
+// inputOfType: v is one of the recursion's inputs of the given type: a parameter of the inference function (or of
+// one of its helpers), or a field loaded from such a parameter.
+func (m *inferModel) inputOfType(v ssa.Value, is func(types.Type) bool) bool {
+	if v == nil || !is(v.Type()) {
+		return false
+	}
+	for _, src := range append(traceSourcesDeep(v), v) {
+		switch x := src.(type) {
+		case *ssa.Parameter:
+			return true
+		case *ssa.UnOp:
+			if fa, ok := x.X.(*ssa.FieldAddr); ok {
+				for _, s2 := range append(traceSourcesDeep(fa.X), fa.X) {
+					if _, isP := s2.(*ssa.Parameter); isP {
+						return true
+					}
+				}
+			}
+		}
+	}
+	return false
+}
+
+func (m *inferModel) isTable(v ssa.Value) bool { return m.inputOfType(v, m.isTableType) }
+func (m *inferModel) isSeen(v ssa.Value) bool  { return m.inputOfType(v, m.isSeenType) }
+
+// entryInput: at an entry call of the inference function, the values given for the input of the given type:
+// the argument itself, or what is stored into that field of the context struct handed over.
+func (m *inferModel) entryInput(call *ssa.Call, is func(types.Type) bool) []ssa.Value {
+	var out []ssa.Value
+	for _, a := range call.Call.Args {
+		if is(a.Type()) {
+			out = append(out, a)
+			continue
+		}
+		// a pointer to a struct with a field of that type
+		pt, ok := a.Type().Underlying().(*types.Pointer)
+		if !ok {
+			continue
+		}
+		st, ok := pt.Elem().Underlying().(*types.Struct)
+		if !ok {
+			continue
+		}
+		for fi := 0; fi < st.NumFields(); fi++ {
+			if !is(st.Field(fi).Type()) {
+				continue
+			}
+			for _, src := range traceSourcesDeep(a) {
+				alloc, isAlloc := src.(*ssa.Alloc)
+				if !isAlloc {
+					continue
+				}
+				core.EachInstr(alloc.Parent(), func(i ssa.Instruction) {
+					if sto, ok := i.(*ssa.Store); ok {
+						if fa, ok := sto.Addr.(*ssa.FieldAddr); ok && fa.X == alloc && fa.Field == fi {
+							out = append(out, sto.Val)
+						}
+					}
+				})
+			}
+		}
+	}
+	return out
 }
 
 func (c *Ctx) inferModel(rule string) *inferModel {
@@ -115,7 +195,17 @@ func (c *Ctx) inferModel(rule string) *inferModel {
 			}
 		}
 	}
-	m := &inferModel{fn: fn, subj: typeSubjectSet(fn, fn.Params[0])}
+	var tp *ssa.Parameter
+	for _, p := range fn.Params {
+		if isNamed(p.Type(), "reflect", "Type") && tp == nil {
+			tp = p
+		}
+	}
+	if tp == nil {
+		c.R.Unresolved(rule, "reflect.Type parameter of the inference function")
+		return nil
+	}
+	m := &inferModel{fn: fn, typeParam: tp, subj: typeSubjectSet(fn, tp), c: c}
 	m.kf = KindFlow(fn, func(v ssa.Value) bool { return m.subj[v] }, nil)
 	return m
 }
@@ -961,7 +1051,13 @@ func ruleC09Elements(c *Ctx) {
 			for _, src := range traceSources(st.Val) {
 				if ex, isEx := src.(*ssa.Extract); isEx && ex.Index == 0 {
 					if call, isCall := ex.Tuple.(*ssa.Call); isCall && call.Call.StaticCallee() == m.fn {
-						if ec, isE := call.Call.Args[0].(*ssa.Call); isE && ec.Call.IsInvoke() && ec.Call.Method.Name() == "Elem" && m.subj[ec.Call.Value] {
+						ti := 0
+						for k, p := range m.fn.Params {
+							if p == m.typeParam {
+								ti = k
+							}
+						}
+						if ec, isE := call.Call.Args[ti].(*ssa.Call); isE && ec.Call.IsInvoke() && ec.Call.Method.Name() == "Elem" && m.subj[ec.Call.Value] {
 							ok = true
 						}
 					}
@@ -1049,28 +1145,11 @@ func ruleC16Clone(c *Ctx) {
 		return
 	}
 	cloneFn := c.fn("(*Schema).CloneSchemas")
-	var tableParam *ssa.Parameter
-	for _, p := range m.fn.Params {
-		if mt, ok := p.Type().Underlying().(*types.Map); ok && isNamed(mt.Key(), "reflect", "Type") && c.isPkgNamed(mt.Elem(), "Schema") {
-			tableParam = p
-		}
-	}
-	if tableParam == nil || cloneFn == nil {
+	if cloneFn == nil {
 		c.R.Unresolved(rule, "type table parameter / CloneSchemas")
 		return
 	}
-	// values derived from the table: lookups in it, and fields / map elements of such schemas
-	isTable := func(v ssa.Value) bool {
-		if v == tableParam {
-			return true
-		}
-		for _, src := range traceSourcesDeep(v) {
-			if src == tableParam {
-				return true
-			}
-		}
-		return false
-	}
+	isTable := m.isTable
 	fromTable := func(v ssa.Value) bool {
 		for d := 0; d < 8; d++ {
 			switch x := v.(type) {
@@ -1177,38 +1256,35 @@ func ruleC16TableCopy(c *Ctx) {
 				return
 			}
 			n++
-			var tableArg ssa.Value
-			for pi, p := range m.fn.Params {
-				if mt, ok := p.Type().Underlying().(*types.Map); ok && isNamed(mt.Key(), "reflect", "Type") && c.isPkgNamed(mt.Elem(), "Schema") {
-					tableArg = call.Call.Args[pi]
-				}
-			}
 			okClone := false
-			if tableArg != nil {
-				srcs := traceSourcesDeep(tableArg)
-				okClone = len(srcs) > 0
-				for _, src := range srcs {
-					cc, ok := src.(*ssa.Call)
-					if !ok || core.CalleeKey(&cc.Call) != "maps.Clone" || loadedFromGlobal(cc.Call.Args[0]) == nil {
+			if tabs := m.entryInput(call, m.isTableType); len(tabs) > 0 {
+				okClone = true
+				for _, tableArg := range tabs {
+					srcs := traceSourcesDeep(tableArg)
+					if len(srcs) == 0 {
 						okClone = false
+					}
+					for _, src := range srcs {
+						cc, ok := src.(*ssa.Call)
+						if !ok || core.CalleeKey(&cc.Call) != "maps.Clone" || loadedFromGlobal(cc.Call.Args[0]) == nil {
+							okClone = false
+						}
 					}
 				}
 			}
 			c.R.Check(okClone, rule, core.FuncName(originOf(fn))+":table-argument", c.pos(call), "the type table handed to the recursion is a per-call clone of the package table", "the type table handed to the recursion is not a per-call maps.Clone of the package table: TypeSchemas of one call would leak into the next, or concurrent calls race")
 			// the seen set is fresh
-			for pi, p := range m.fn.Params {
-				if mt, ok := p.Type().Underlying().(*types.Map); ok && tBool(mt.Elem()) {
-					isMake := false
-					if srcs := traceSourcesDeep(call.Call.Args[pi]); len(srcs) > 0 {
-						isMake = true
-						for _, src := range srcs {
-							if _, ok := src.(*ssa.MakeMap); !ok {
-								isMake = false
-							}
+			for _, seenArg := range m.entryInput(call, m.isSeenType) {
+				isMake := false
+				if srcs := traceSourcesDeep(seenArg); len(srcs) > 0 {
+					isMake = true
+					for _, src := range srcs {
+						if _, ok := src.(*ssa.MakeMap); !ok {
+							isMake = false
 						}
 					}
-					c.R.Check(isMake, rule, core.FuncName(originOf(fn))+":seen-argument", c.pos(call), "the cycle set is fresh per call", "the cycle set handed to the recursion is not a fresh map")
 				}
+				c.R.Check(isMake, rule, core.FuncName(originOf(fn))+":seen-argument", c.pos(call), "the cycle set is fresh per call", "the cycle set handed to the recursion is not a fresh map")
 			}
 		})
 	}
@@ -1221,16 +1297,6 @@ func ruleC16Cycle(c *Ctx) {
 	if m == nil {
 		return
 	}
-	var seenParam *ssa.Parameter
-	for _, p := range m.fn.Params {
-		if mt, ok := p.Type().Underlying().(*types.Map); ok && tBool(mt.Elem()) && isNamed(mt.Key(), "reflect", "Type") {
-			seenParam = p
-		}
-	}
-	if seenParam == nil {
-		c.R.Unresolved(rule, "cycle set parameter")
-		return
-	}
 	var test *ssa.Lookup
 	var mark *ssa.MapUpdate
 	var unmark *ssa.Defer
@@ -1238,19 +1304,19 @@ func ruleC16Cycle(c *Ctx) {
 	c.eachFam(m.fn, func(i ssa.Instruction) {
 		switch x := i.(type) {
 		case *ssa.Lookup:
-			if x.X == seenParam && m.subj[x.Index] {
+			if m.isSeen(x.X) && m.subj[x.Index] {
 				test = x
 			}
 		case *ssa.MapUpdate:
-			if x.Map == seenParam && m.subj[x.Key] {
+			if m.isSeen(x.Map) && m.subj[x.Key] {
 				mark = x
 			}
 		case *ssa.Defer:
-			if core.CalleeKey(&x.Call) == "builtin.delete" && x.Call.Args[0] == seenParam {
+			if core.CalleeKey(&x.Call) == "builtin.delete" && m.isSeen(x.Call.Args[0]) {
 				unmark = x
 			}
 		case *ssa.Call:
-			if core.CalleeKey(&x.Call) == "builtin.delete" && x.Call.Args[0] == seenParam {
+			if core.CalleeKey(&x.Call) == "builtin.delete" && m.isSeen(x.Call.Args[0]) {
 				plainDeletes = append(plainDeletes, x)
 			}
 		}
